@@ -630,6 +630,19 @@ Definition mon_C18 (tr : trace) : list failure :=
      | (a, HStart r _ md dl tmd _ _) => c18_judge a r (timeout_vals (omd md)) dl tmd
      | _ => [] end) tr.
 
+(* ---------- a handler blocked in a read is released when its own deadline passes (C18 / C07 / C14) ----------
+   1803: the clock was moved past the deadline the handler got from grpc-timeout (the harness moves it by more than
+   any timeout it uses below one hour) and a read the handler had pending is still pending afterwards *)
+Definition mon_deadline_wakes (tr : trace) : list failure :=
+  flat_map (fun e => match e with
+    | (a0, HStart r _ _ (Some d) _ _ _) =>
+        if (3600000000000 <=? d)%Z then [] else
+        match filter (fun x => match x with (a1, Stim StAdvance _ _ _) => a0 <? a1 | _ => false end) tr with
+        | (a1, _) :: _ => if N.eqb (n_calls (Hr r) a1 tr) (n_rets (Hr r) a1 tr) then [] else fl 1803 a1 (zr r) d
+        | [] => []
+        end
+    | _ => [] end) tr.
+
 (* ---------- nothing of a tunnel stays live once its serving call has returned (C09 / C04 / C14) ----------
    903: a handler asked for its context after the reverse tunnel's Serve call had returned found it not done *)
 Definition mon_ctx_after_end (tr : trace) : list failure :=
@@ -643,5 +656,5 @@ Definition mon_ctx_after_end (tr : trace) : list failure :=
 
 (* ---------- a panic or a duplicate handler start is always a failure (C09 / C08) ---------- *)
 Definition mon_panic (tr : trace) : list failure :=
-  mon_ctx_after_end tr ++
+  mon_ctx_after_end tr ++ mon_deadline_wakes tr ++
   flat_map (fun e => match e with (a, Panic) => fl 901 a 0 0 | (a, HarnessFail c x y) => fl c a x y | _ => [] end) tr.
